@@ -98,6 +98,14 @@ WALKS = ["1qaz", "qwerty", "asdf", "zxcvbn", "1q2w3e", "qazwsx", "1qaz2wsx"]
 CONTEXT = ["#1", "<3", ";p", "No.1", "Mr.", "*0*"]
 EMAILS = ["bob@gmail.com", "x.y@yahoo.com", "me@example.org"]
 SITES = ["www.google.com", "facebook.com", "http://test.org", "mysite.net"]
+# richer e-mail / website material (kinds "email2" / "site2": only on request, the default mix is unchanged)
+MAIL_USERS = ["bob", "alice", "x.y", "Mr.X", "j_doe", "a1", "info", "Bob"]
+MAIL_PROVIDERS = ["gmail.com", "yahoo.com", "hotmail.com", "mail.ru", "web.de", "yahoo.co.uk", "aol.com", "example.org",
+                  "GMAIL.COM", "Yahoo.com", "uni.edu", "gmx.net", "google.com", "facebook.com"]
+SITE_PREFIXES = ["", "", "www.", "www.", "http://", "http://www.", "WWW.", "https://", "https://www."]
+SITE_HOSTS = ["google.com", "facebook.com", "test.org", "mysite.net", "bbc.co.uk", "yandex.ru", "Example.COM", "heise.de",
+              "myspace.com", "gmail.com", "yahoo.com", "mail.ru"]
+SITE_TAILS = ["", "", "1", "123", "/", "/index.html", "!", "2019"]
 HEXLOOK = ["$HEX[", "$HEX[41]x", "x$HEX[41]", "$hex[41]", "$HEX[41", "HEX[41]", "$HEX [41]"]
 HEXSHAPED = ["$HEX[41]", "$HEX[zz]", "$HEX[]", "$HEX[4]", "$HEX[41 42]", "$HEX[c3]", "$HEX[4142]]"]
 
@@ -135,6 +143,11 @@ def gen_password(rng, enc, kind=None):
         return rng.choice(EMAILS) + rng.choice(["", "1", "!"])
     if kind == "site":
         return rng.choice(SITES) + rng.choice(["", "1", "123"])
+    if kind == "email2":
+        return rng.choice(MAIL_USERS) + "@" + rng.choice(MAIL_PROVIDERS) + rng.choice(["", "", "1", "!", "123"])
+    if kind == "site2":
+        return (rng.choice(SITE_PREFIXES) + rng.choice(["", "", "", "mail.", "m."]) + rng.choice(SITE_HOSTS)
+                + rng.choice(SITE_TAILS))
     if kind == "sym":
         return rng.choice(SYMBOLS) + rng.choice(SYMBOLS)
     if kind == "digits":
@@ -350,6 +363,11 @@ class TrainRun:
     pass
 
 
+def parser_counters(parser):
+    """Deep copy of every count_* table of a PCFGPasswordParser (name -> copy)."""
+    return {k: copy.deepcopy(v) for k, v in sorted(vars(parser).items()) if k.startswith("count_")}
+
+
 def read_tree(d):
     out = {}
     for root, _, files in os.walk(d):
@@ -391,6 +409,14 @@ def train_inprocess(training_file, enc, rule_dir, coverage=0.6, prefixcount=Fals
     rec.sections, rec.readers, rec.parsers, rec.omen, rec.omen_save = [], [], [], [], None
     o_bsc, o_tfi, o_pp, o_al, o_save = (PP.base_structure_creation, RT.TrainerFileInput, RT.PCFGPasswordParser,
                                         RT.AlphabetLookup, RT.save_omen_rules_to_disk)
+    o_stats = getattr(RT, "print_statistics", None)
+    rec.snapshot = None
+
+    def stats(pcfg_parser, *a, **k):
+        # the moment parsing has ended (all three passes done, nothing saved yet): every count_* table as it is NOW
+        if rec.snapshot is None:
+            rec.snapshot = parser_counters(pcfg_parser)
+        return o_stats(pcfg_parser, *a, **k)
 
     def bsc(section_list):
         rec.sections.append([(s[0], s[1]) for s in section_list])
@@ -426,6 +452,8 @@ def train_inprocess(training_file, enc, rule_dir, coverage=0.6, prefixcount=Fals
     pinfo = program_info(training_file, enc, coverage, prefixcount, ngram, alphabet_size, save_sensitive, multiword)
     PP.base_structure_creation, RT.TrainerFileInput, RT.PCFGPasswordParser = bsc, RecInput, mk_parser
     RT.AlphabetLookup, RT.save_omen_rules_to_disk = mk_al, save_omen
+    if o_stats is not None:
+        RT.print_statistics = stats
     try:
         def go():
             if not create_rule_folders(rule_dir):
@@ -439,6 +467,8 @@ def train_inprocess(training_file, enc, rule_dir, coverage=0.6, prefixcount=Fals
     finally:
         PP.base_structure_creation, RT.TrainerFileInput, RT.PCFGPasswordParser = o_bsc, o_tfi, o_pp
         RT.AlphabetLookup, RT.save_omen_rules_to_disk = o_al, o_save
+        if o_stats is not None:
+            RT.print_statistics = o_stats
     rec.ok = bool(rec.ok)
     rec.rule_dir, rec.enc, rec.coverage, rec.prefixcount, rec.ngram = rule_dir, enc, coverage, prefixcount, ngram
     rec.save_sensitive = save_sensitive
@@ -477,13 +507,67 @@ def train_cli(code, training_file, name, enc, coverage=0.6, prefixcount=False, h
 # ---------------------------------------------------------------------------
 # independent recount from the captured section lists
 
-def recount(sections):
+PREFIXES = (("http://www.", 1), ("http://", 0), ("www.", 0))
+
+
+def lower_in_place(s):
+    """s lower-cased as far as every character keeps its place (U+0130 stays)."""
+    return "".join(c.lower() if len(c.lower()) == 1 else c for c in s)
+
+
+def tld_list():
+    """The TLD list of the working tree (a data constant), [] when it cannot be read."""
+    try:
+        from consts import trainer_seg
+        return list(trainer_seg.extract_data()["tld_list"])
+    except Exception:      # noqa: BLE001 - unrecognised source shape: ask the running code
+        try:
+            from lib_trainer.detection_rules.tld_list import get_tld_list
+            return [t for t in get_tld_list() if isinstance(t, str) and t]
+        except Exception:      # noqa: BLE001
+            return []
+
+
+def site_parts(url, tlds):
+    """(host, prefix) of a website segment, from its text alone: the URL ends with a
+    TLD of the list or goes on with '/' behind one; the host is what stands between
+    the last '.' in front of that TLD and the TLD's end; the prefix is the one of
+    http://www. / http:// / www. that stands in front of the host (None if none).
+    Returns None when the text does not determine the TLD (no or several candidates)."""
+    cands = set()
+    for t in tlds:
+        i = url.find(t)
+        while i != -1:
+            e = i + len(t)
+            if e == len(url) or url[e] == "/":
+                cands.add((i, e))
+            i = url.find(t, i + 1)
+    if len(cands) != 1:
+        return None
+    ti, te = cands.pop()
+    hs = url.rfind(".", 0, ti) + 1
+    prefix = None
+    for p, extra in PREFIXES:
+        k = url[:hs + extra].rfind(p)
+        if k != -1:
+            if k != 0:
+                return None
+            prefix = p
+            break
+    return url[hs:te], prefix
+
+
+def recount(sections, tlds=None):
     """The counters the parser must hold, recomputed from the section lists the
     real detectors produced.  Terminals: alpha (lower-cased) + mask, digits,
-    other, keyboard, years, context, e-mail text; structures: base (supported
-    only), raw, prince."""
+    other, keyboard, years, context, e-mail text, e-mail provider (what follows
+    the first '@' of an e-mail segment), website text, website host and prefix
+    (site_parts; only with `tlds`); structures: base (supported only), raw, prince.
+    R["site_exact"] / R["email_exact"]: every website / e-mail segment determined its items."""
     R = {"alpha": {}, "masks": {}, "digits": {}, "other": {}, "keyboard": {}, "years": Counter(),
-         "context": Counter(), "base": Counter(), "raw": Counter(), "prince": Counter()}
+         "context": Counter(), "base": Counter(), "raw": Counter(), "prince": Counter(),
+         "emails": Counter(), "providers": Counter(), "urls": Counter(), "hosts": Counter(), "prefixes": Counter(),
+         "site_exact": tlds is not None and len(tlds) > 0, "email_exact": True, "n_email": 0, "n_site": 0}
 
     def li(d, item):
         d.setdefault(len(item), Counter())[item] += 1
@@ -507,6 +591,22 @@ def recount(sections):
                 R["years"][text] += 1
             elif t == "X":
                 R["context"][text] += 1
+            elif t == "E":
+                R["n_email"] += 1
+                em = lower_in_place(text)
+                if "\u03a3" in text or "@" not in text:     # final-sigma context / not an address: not decided here
+                    R["email_exact"] = False
+                R["emails"][em] += 1
+                R["providers"][em[em.find("@") + 1:]] += 1
+            elif t == "W":
+                R["n_site"] += 1
+                R["urls"][text] += 1
+                hp = site_parts(text, tlds) if tlds else None
+                if hp is None:
+                    R["site_exact"] = False
+                else:
+                    R["hosts"][hp[0]] += 1
+                    R["prefixes"][hp[1]] += 1
         s = "".join(l for _, l in sl)
         if supported:
             R["base"][s] += 1
